@@ -354,6 +354,9 @@ UNIT_RATES = {c: G.CATALOGUE[c]['rates'] if c in G.CATALOGUE
 BAD_UNITS = sorted([c, r, k] for c in UNIT_ARGS for r in UNIT_RATES[c]
                    for k in range(len(UNIT_ARGS[c])))
 
+FIRST_RATE = ['Decay', 'HPF', 'Integrator', 'LPF', 'Lag', 'LinExp', 'OnePole',
+              'PulseCount', 'Ringz']
+
 MUST_REJECT = {'control_into_audio_out', 'nan_input', 'none_input',
                'str_input', 'first_input_rate'}
 
@@ -399,7 +402,15 @@ def run_invalid(case, v):
             U['Out'].ar(0, [U['SinOsc'].ar(440, 0), U['SinOsc'].ar(441, 0),
                             U['SinOsc'].ar((440, 441), 0)])
         elif fault == 'first_input_rate':
-            U['Out'].ar(0, U['LPF'].ar(U['SinOsc'].kr(3, 0), 800))
+            # a unit that must run at the rate of its first input gets a
+            # signal of the other rate there
+            cls, r, _ = case.get('unit') or ['LPF', 'ar', 0]
+            if cls not in FIRST_RATE:
+                cls = FIRST_RATE[len(cls) % len(FIRST_RATE)]
+            other = 'kr' if r == 'ar' else 'ar'
+            args = [getattr(U['SinOsc'], other)(3, 0)] + [0.5] * (
+                len(UNIT_ARGS[cls]) - 1)
+            getattr(U['Out'], r)(0, getattr(U[cls], r)(*args))
 
     inner.body = body
     variants = None
